@@ -306,6 +306,12 @@ class Interp(Engine):
         if isinstance(a, str) and isinstance(op, ast.Mod) and isinstance(b, tuple) and any(isinstance(x, Sym) for x in b):
             t = self.format_term(a, b)
             return SStr(t if t is not None else self.fresh('fmt', StrSort))
+        if isinstance(a, str) and isinstance(op, ast.Mod) and self.hooks.get('format_event') and not isinstance(b, Sym):
+            args = b if isinstance(b, tuple) else (b,)
+            if not any(isinstance(x, Sym) for x in args):
+                r = a % b                       # all operands concrete: the event is reported with the concrete text
+                self.hooks['format_event'](self, a, list(args), self.as_str(r))
+                return r
         if not isinstance(a, Sym) and not isinstance(b, Sym):
             return self.concrete_binop(op, a, b)
         if isinstance(a, (SBytes, bytes)) or isinstance(b, (SBytes, bytes)):
@@ -541,6 +547,8 @@ class Interp(Engine):
                 terms.append(self.as_str(x))
             elif isinstance(x, SInt) or (isinstance(x, int) and not isinstance(x, bool)):
                 terms.append(self.as_int(x))
+            elif type(x).__name__ == 'SOptStr' and self.check_sat([x.isnone]) == z3.unsat:
+                terms.append(x.t)               # an optional string that is present on this path renders as itself
             else:
                 hook = self.hooks.get('str') if isinstance(x, Sym) else None
                 r = hook(self, x) if hook else NotImplemented
@@ -551,7 +559,11 @@ class Interp(Engine):
         name = 'fmt!%s!%s' % (hashlib.sha1(fmt.encode('utf-8')).hexdigest()[:10],
                               ''.join('i' if t.sort() == z3.IntSort() else 's' for t in terms))
         f = z3.Function(name, *([t.sort() for t in terms] + [StrSort]))
-        return f(*terms)
+        term = f(*terms)
+        h = self.hooks.get('format_event')
+        if h:
+            h(self, fmt, args, term)        # contracts over generated text record which pieces are produced
+        return term
 
     def as_str(self, v):
         if isinstance(v, SStr):
